@@ -2,6 +2,7 @@ package sess
 
 import (
 	"fmt"
+	"strings"
 	"testing"
 	"time"
 
@@ -13,6 +14,7 @@ import (
 
 	"verif/harness/evid"
 	"verif/harness/pbt"
+	"verif/harness/ref"
 	"verif/harness/rig"
 )
 
@@ -20,15 +22,15 @@ import (
 
 type C15Case struct {
 	Script
-	Ending     string `json:"ending"`      // peer-logout | local-logout | stop
-	AnswerKind string `json:"answer_kind"` // never | immediately | half | just-before | after
-	AppHandler string `json:"app_handler"` // the application's own EventLogout handler: none | true | false (its return value)
-	EndStep    int    `json:"end_step"`    // index of the peer Logout / local Logout / Stop step
-	AnswerStep int    `json:"answer_step"` // index of the peer's answering Logout (-1: none)
-	DamagedFirst bool `json:"damaged_first,omitempty"` // peer-logout ending: a damaged Logout precedes the intact one
-	RefuseLogout bool `json:"refuse_logout,omitempty"` // stop ending: an application outgoing handler refuses the Logout, so it never reaches the peer; the deadline still ends the session
-	CounterFails bool `json:"counter_fails,omitempty"` // peer-logout ending: the counter store fails from just before the peer's Logout on; the Logout is answered all the same
-	Probed     bool   `json:"probed"`      // local endings: the peer has been silent long enough for the session to have sent its TestRequest; the local Logout()/Stop() comes while that is unanswered
+	Ending       string `json:"ending"`                  // peer-logout | local-logout | stop
+	AnswerKind   string `json:"answer_kind"`             // never | immediately | half | just-before | after
+	AppHandler   string `json:"app_handler"`             // the application's own EventLogout handler: none | true | false (its return value)
+	EndStep      int    `json:"end_step"`                // index of the peer Logout / local Logout / Stop step
+	AnswerStep   int    `json:"answer_step"`             // index of the peer's answering Logout (-1: none)
+	DamagedFirst bool   `json:"damaged_first,omitempty"` // peer-logout ending: a damaged Logout precedes the intact one
+	RefuseLogout bool   `json:"refuse_logout,omitempty"` // stop ending: an application outgoing handler refuses the Logout, so it never reaches the peer; the deadline still ends the session
+	CounterFails bool   `json:"counter_fails,omitempty"` // peer-logout ending: the counter store fails from just before the peer's Logout on; the Logout is answered all the same
+	Probed       bool   `json:"probed"`                  // local endings: the peer has been silent long enough for the session to have sent its TestRequest; the local Logout()/Stop() comes while that is unanswered
 }
 
 func genC15(t *rapid.T) *C15Case {
@@ -395,4 +397,99 @@ func TestC15Callback(t *testing.T) {
 	outerT = t
 	rec := evid.New("C15/callback")
 	pbt.Run(t, "C15", rec, genC15Callback, checkC15Callback)
+}
+
+// ---- C15, Stop called from the application's error callback ----
+//
+// An application that gives up on the first error calls Session.Stop() from its
+// OnError callback. The error here is the session's own answer to a TestRequest
+// being refused by an application outgoing handler; the callback runs on the
+// inbound goroutine. Stop sends the Logout once and, the peer staying silent,
+// ends the session at the close timeout.
+
+type C15ErrCase struct {
+	Script
+	FailStep int `json:"fail_step"`
+}
+
+func genC15Err(t *rapid.T) *C15ErrCase {
+	cfg := genCfg(t, "")
+	cfg.Approve = "all"
+	cfg.HBMin, cfg.HBMax = 40, 60
+	cfg.HBInt = rapid.IntRange(40, 60).Draw(t, "hb15err")
+	cfg.CloseTimeoutMs = rapid.SampledFrom([]int64{1, 100, 1000, 30000}).Draw(t, "closeTimeout15err")
+	g := &hgen{t: t, cfg: cfg, inSeq: 1}
+	c := &C15ErrCase{}
+	c.Cfg = cfg
+	c.Steps = append(c.Steps, rig.Step{Op: "in", In: g.goodLogon(0)})
+	for i := rapid.IntRange(0, 3).Draw(t, "before"); i > 0; i-- {
+		if rapid.Bool().Draw(t, "fillerKind") {
+			c.Steps = append(c.Steps, rig.Step{Op: "in", In: g.testRequest(fmt.Sprint("ok", i))})
+		} else {
+			c.Steps = append(c.Steps, rig.Step{Op: "send", ID: fmt.Sprint("app", i)})
+		}
+	}
+	c.FailStep = len(c.Steps)
+	c.Steps = append(c.Steps, rig.Step{Op: "in", In: g.testRequest("FAIL")})
+	c.Steps = append(c.Steps, rig.Step{Op: "advance", Dt: cfg.CloseTimeoutMs*1e6 + 10e6})
+	c.MaxHB = g.maxHB
+	return c
+}
+
+func checkC15Err(c *C15ErrCase, rec *evid.Rec) (vs []pbt.Violation) {
+	callbacks := 0
+	hooks := &rig.Hooks{
+		BeforeRun: func(h *simplefixgo.DefaultHandler, log *rig.EventLog) {
+			h.HandleOutgoing(rig.THeartbeat, func(msg simplefixgo.SendingMessage) bool {
+				b, err := msg.ToBytes()
+				if err != nil {
+					return true
+				}
+				id, _ := ref.Lookup(b, rig.TagTestReqID)
+				return !strings.HasPrefix(id, "FAIL") // (the generator may lengthen the ID it was asked for)
+			})
+		},
+		AfterRun: func(h *simplefixgo.DefaultHandler, s *session.Session, log *rig.EventLog) {
+			s.OnError(func(error) {
+				callbacks++
+				if callbacks == 1 {
+					_ = s.Stop()
+				}
+			})
+		},
+	}
+	tr := rig.RunDirect(outerT, c.Cfg, c.Steps, hooks, c.MaxHB)
+	if tr.Trouble != "" {
+		return []pbt.Violation{pbt.V("harness", "%s", tr.Trouble)}
+	}
+	if tr.RunPanic != "" {
+		return []pbt.Violation{pbt.V("inbound-panic", "handler.Run panicked: %s", tr.RunPanic)}
+	}
+	if callbacks == 0 {
+		return []pbt.Violation{pbt.V("harness:no-error-reported", "the refused answer was not reported to the error callback")}
+	}
+	total := 0
+	for i := range c.Steps {
+		total += logouts(tr.Steps[i].Out)
+	}
+	if total != 1 {
+		vs = append(vs, pbt.V("errcallback-logout-count", "Stop() called from the error callback must send exactly one Logout, %d were sent; the step that failed emitted:%s", total, showOut(tr.Steps[c.FailStep])))
+	}
+	last := tr.Steps[len(c.Steps)-1]
+	if !last.CtxDone && len(vs) == 0 {
+		vs = append(vs, pbt.V("errcallback-not-ended", "Stop() called from the error callback: %d ms after it (close timeout %d ms, silent peer) the session's context is still not cancelled", c.Cfg.CloseTimeoutMs+10, c.Cfg.CloseTimeoutMs))
+	}
+	rec.Case(evid.FPs(fmt.Sprintf("err|%s|%d|%d", c.Cfg.Role, len(c.Steps), c.Cfg.CloseTimeoutMs)), true)
+	rec.Hist("stop-from-the-error-callback")
+	rec.Hist("errcallback:role:" + c.Cfg.Role)
+	if rec.WantSample() {
+		rec.Sample(map[string]any{"engine": "Stop() from the error callback", "history": showScript(&c.Script)})
+	}
+	return vs
+}
+
+func TestC15ErrCallback(t *testing.T) {
+	outerT = t
+	rec := evid.New("C15/errcallback")
+	pbt.Run(t, "C15", rec, genC15Err, checkC15Err)
 }
